@@ -58,6 +58,7 @@ def decMw (j : J) : M MwKind := do
   | "rename" => return .rename (← str (← fld j "to"))
   | "setParams" => return .setParams (← decParams (← fld j "p"))
   | "wrapResult" => pure .wrapResult
+  | "appendParam" => return .appendParam (← decJ (← fld j "v"))
   | k => throw s!"bad middleware kind {k}"
 
 def decHandlerKind (j : J) : M HandlerKind := do
